@@ -12,9 +12,17 @@ partial def lineLoop (h : IO.FS.Stream) (out : IO.FS.Stream) (f : String → Str
   out.putStrLn (f (line.dropEndWhile (· == '\n')).toString)
   lineLoop h out f
 
+partial def stateLoop {σ : Type} (h : IO.FS.Stream) (out : IO.FS.Stream) (f : σ → String → σ × String) (s : σ) : IO Unit := do
+  let line ← h.getLine
+  if line.isEmpty then return ()
+  let (s', o) := f s (line.dropEndWhile (· == '\n')).toString
+  out.putStrLn o
+  stateLoop h out f s'
+
 def main (args : List String) : IO UInt32 := do
   let stdin ← IO.getStdin
   let stdout ← IO.getStdout
   match args with
   | ["arith"] => lineLoop stdin stdout Oratio.Driver.Arith.step; return 0
+  | ["enc"] => stateLoop stdin stdout Oratio.Driver.EncD.step none; return 0
   | _ => IO.eprintln "usage: oratio_model <arith|...>"; return 2
